@@ -14,18 +14,23 @@ speculative-execution plan, retry policy, clock.  One history op = one call into
   ['nextpage', [hosts]]            future.start_fetching_next_page() with a fresh query plan
   ['addcb']                        future.add_callbacks(cb_k, eb_k)
   ['result']                       future.result() (only when it would not block)
+  ['presp', a, pk]                 the PREPARE sent as attempt a (by _reprepare) is answered; pk in prepared|mismatch|error|connerr|junk
+  ['foreign', h]                   ANOTHER statement uses the connection of host h: enough requests are served for the most recently
+                                   returned stream id to come round, one request stays in flight on it (no call into the future)
   ['shutdown']                     Session.shutdown() has set session.is_shutdown (the REAL Session.submit then refuses work)
   ['refresh', k]                   the executor runs the k-th queued refresh_schema_and_set_result (after a SCHEMA_CHANGE answer)
   ['ksreport', c, h, err]          pool h reports the outcome of its internal USE to keyspace propagation c (started by a
                                    SET_KEYSPACE answer through the REAL Session._set_keyspace_for_all_pools)
 
-Times are integer milliseconds; the fake time.time() returns exact Fractions of seconds, so no float rounding
+Stream ids are per connection and recycled like Connection.request_ids (deque: popleft on borrow, append on answer or when
+the driver hands an unused id back).  Times are integer milliseconds; the fake time.time() returns exact Fractions of seconds, so no float rounding
 enters the comparison with the model (which counts milliseconds in Z).
 """
 import collections, re, sys, threading, types
 from fractions import Fraction
 from functools import partial
 
+NIDS = 64
 DECISIONS = ['RETRY', 'RETRY_NEXT_HOST', 'RETHROW', 'IGNORE']
 PSTATE = {'ok': 0, 'noconn': 1, 'sendfail': 2, 'shutdown': 3, 'missing': 4}
 RETRY_CLASSES = ['ReadTimeout', 'WriteTimeout', 'Unavailable', 'Overloaded', 'Bootstrapping', 'Truncate', 'ServerError',
@@ -83,16 +88,17 @@ class FakeConn(object):
         self._requests = {}
         self.lock = threading.Lock()
         self.orphaned_request_ids = set()
-        self.request_ids = collections.deque()   # ids handed back by _query when send_msg raised ConnectionBusy
+        self.request_ids = collections.deque(range(NIDS))   # free stream ids, recycled as in Connection
+        self.foreign = {}        # stream id -> callback object of a request of another statement, in flight here
         self.defuncts = 0
 
     def send_msg(self, msg, request_id, cb, encoder=None, decoder=None, result_metadata=None):
         if self.world.pool_state.get(self.host.i, 'missing') == 'sendfail':
             raise cluster_mod().ConnectionBusy('busy h%d' % self.host.i)
-        assert request_id == self.world.next_req == len(self.world.attempts)
-        self.world.next_req += 1
+        assert request_id not in self._requests
         self._requests[request_id] = (cb, decoder, result_metadata)
-        self.world.attempts.append((self.host.i, request_id, self.world.f._page_no))
+        self.world.attempts.append({'host': self.host.i, 'rid': request_id, 'page': self.world.f._page_no, 'cb': cb,
+                                    'prep': type(msg).__name__ == 'PrepareMessage'})
         self.world.sent.append((self.host.i, getattr(msg, 'paging_state', None)))
         return 10
 
@@ -116,8 +122,9 @@ class FakePool(object):
         st = self.world.pool_state.get(self.host.i)
         if st == 'noconn':
             raise cluster_mod().NoConnectionsAvailable('none h%d' % self.host.i)
-        # the id is consumed only when send_msg succeeds, so that request id == index of the attempt
-        return self.conn, self.world.next_req
+        if not self.conn.request_ids:
+            raise cluster_mod().NoConnectionsAvailable('no stream id left on h%d' % self.host.i)
+        return self.conn, self.conn.request_ids.popleft()
 
     def return_connection(self, conn, stream_was_orphaned=False):
         if stream_was_orphaned:
@@ -238,7 +245,6 @@ class World(object):
         self.queue = []
         self.attempts = []       # (host, req_id) in send order; req_id == index
         self.sent = []
-        self.next_req = 0
         self.next_plan = list(cfg.get('plan', []))
         self.next_decision = 2
         self.pairs = []          # per registered pair: {'cb': [vals], 'eb': [vals]} for the current page fetch
@@ -273,11 +279,14 @@ class World(object):
         self.policy = FakeRetryPolicy(self)
         self.faketime = FakeTimeModule(self)
         msg = QueryMessage('SELECT 1', 1)
+        self.prepared = Obj()
+        self.prepared.query_id, self.prepared.keyspace, self.prepared.query_string = b'qid', None, 'SELECT 1'
+        self.prepared.result_metadata, self.prepared.result_metadata_id = [], None
         timeout = cfg.get('timeout')
         with self:
             self.f = cl.ResponseFuture(s, msg, SimpleStatement('SELECT 1'),
                                        None if timeout is None else Fraction(timeout, 1000),
-                                       retry_policy=self.policy,
+                                       retry_policy=self.policy, prepared_statement=self.prepared,
                                        speculative_execution_plan=FakeSpecPlan(cfg.get('specs', [])))
         # instrument _on_timeout completion (ghost flag of the model: the timeout handler ran past its reschedule branch)
 
@@ -317,6 +326,8 @@ class World(object):
             return r
         if kind == 'void':
             return P.ResultMessage(P.RESULT_KIND_VOID)
+        if kind == 'unprepared':
+            return P.PreparedQueryNotFound(0x2500, 'unprepared att=%d' % a, b'qid')
         if kind == 'schema':
             r = P.ResultMessage(P.RESULT_KIND_SCHEMA_CHANGE)
             r.schema_change_event = {'target_type': 'KEYSPACE', 'change_type': 'CREATED', 'keyspace': 'ks%d' % a}
@@ -362,6 +373,23 @@ class World(object):
                 return RuntimeError(tag)
         raise ValueError('bad response spec %r' % ((kind, arg, cls),))
 
+    def make_prepare_answer(self, a, pk):
+        from cassandra import protocol as P
+        cl = cluster_mod()
+        if pk in ('prepared', 'mismatch'):
+            r = P.ResultMessage(P.RESULT_KIND_PREPARED)
+            r.query_id = b'qid' if pk == 'prepared' else b'other'
+            r.column_metadata = []
+            r.result_metadata_id = None
+            return r
+        if pk == 'error':
+            return P.InvalidRequestException(0x2200, 'att=%d' % a, None)
+        if pk == 'connerr':
+            return cl.ConnectionException('att=%d' % a, None)
+        r = P.ReadyMessage()
+        r.att = a
+        return r
+
     # ------------------------------------------------------------------ canonical values
     @staticmethod
     def canon_val(v):
@@ -386,6 +414,8 @@ class World(object):
             return 4
         if 'Session is shut down' in str(e):
             return 5
+        if 'ID mismatch while trying to reprepare' in str(e):
+            return 6
         m = re.search(r'att=(\d+)', str(e)) or re.search(r'att=(\d+)', repr(e))
         if m:
             return 10 + int(m.group(1))
@@ -393,12 +423,44 @@ class World(object):
 
     # ------------------------------------------------------------------ enabledness (read from the fakes)
     def open_attempts(self):
+        """attempts whose own callback is still registered under their stream id"""
         out = []
-        for a, (h, rid, pg) in enumerate(self.attempts):
-            p = self.session._pools.pools.get(h)
-            if p is not None and rid in p.conn._requests:
+        for a, at in enumerate(self.attempts):
+            p = self.session._pools.pools.get(at['host'])
+            if p is not None and p.conn._requests.get(at['rid'], (None,))[0] is at['cb']:
                 out.append(a)
         return out
+
+    def take_callback(self, a):
+        """what Connection.process_msg does when the answer arrives: unregister, free the stream id"""
+        at = self.attempts[a]
+        conn = self.session._pools.pools[at['host']].conn
+        cb, _, _ = conn._requests.pop(at['rid'])
+        if at['rid'] not in conn.orphaned_request_ids:
+            conn.request_ids.append(at['rid'])
+        return cb
+
+    def foreign_intact(self):
+        """requests of other statements are still registered with their own callback"""
+        bad = []
+        for h, p in self.session._pools.pools.items():
+            for rid, cb in p.conn.foreign.items():
+                if p.conn._requests.get(rid, (None,))[0] is not cb:
+                    bad.append((h, rid))
+        return bad
+
+    def own_request_index(self):
+        """self._req_id / self._connection translated to the index of the attempt they point at: -1 = none,
+        -2 = a stream this future did not send on (e.g. an id it handed back)"""
+        f = self.f
+        if f._req_id is None:
+            return -1
+        if f._connection is not None:
+            for a in range(len(self.attempts) - 1, -1, -1):
+                at = self.attempts[a]
+                if at['host'] == f._connection.host.i and at['rid'] == f._req_id:
+                    return a
+        return -2
 
     def live_timers(self):
         return [k for k, t in enumerate(self.timers) if not t.canceled and not t.fired]
@@ -437,8 +499,9 @@ class World(object):
                 a, kind, arg, cls = op[1], op[2], op[3], op[4]
                 if a not in self.open_attempts():
                     return False
-                h, rid, _pg = self.attempts[a]
-                cb, _, _ = self.session._pools.pools[h].conn._requests.pop(rid)
+                if self.attempts[a]['prep']:
+                    return False
+                cb = self.take_callback(a)
                 if kind == 'retry':
                     self.next_decision = arg
                 self._guarded(cb, self.make_response(a, kind, arg, cls))     # Connection.process_msg logs and goes on
@@ -455,6 +518,25 @@ class World(object):
                     return False
                 fn, a, kw = self.queue.pop(op[1])
                 self._guarded(fn, *a, **kw)      # the exception would stay in the executor's Future
+                return True
+            if k == 'presp':
+                a, pk = op[1], op[2]
+                if a not in self.open_attempts() or not self.attempts[a]['prep']:
+                    return False
+                cb = self.take_callback(a)
+                self._guarded(cb, self.make_prepare_answer(a, pk))
+                return True
+            if k == 'foreign':
+                p = self.session._pools.get(self.host(op[1]))
+                if p is None or not p.conn.request_ids:
+                    return False
+                conn = p.conn
+                for _ in range(len(conn.request_ids) - 1):      # requests that are answered at once: ids go round
+                    conn.request_ids.append(conn.request_ids.popleft())
+                rid = conn.request_ids.popleft()
+                cb = object()
+                conn._requests[rid] = (cb, None, None)
+                conn.foreign[rid] = cb
                 return True
             if k == 'shutdown':
                 self.session.is_shutdown = True
@@ -513,8 +595,7 @@ class World(object):
             a, kind, arg, cls = op[1], op[2], op[3], op[4]
             if a not in self.open_attempts():
                 return None
-            h, rid, _pg = self.attempts[a]
-            cb, _, _ = self.session._pools.pools[h].conn._requests.pop(rid)
+            cb = self.take_callback(a)
             if kind == 'retry':
                 self.next_decision = arg
             resp = self.make_response(a, kind, arg, cls)
@@ -558,11 +639,11 @@ class World(object):
             o += [t.kind, t.due, int(t.canceled), int(t.fired)]
         o += [len(self.queue), len(self.attempts)]
         op = set(self.open_attempts())
-        for a, (h, rid, pg) in enumerate(self.attempts):
-            o += [h, int(a in op), int(pg != f._page_no)]
+        for a, at in enumerate(self.attempts):
+            o += [at['host'], int(a in op), int(at['page'] != f._page_no), int(at['prep'])]
         o += [f._current_host.i if f._current_host is not None else -1,
               f._connection.host.i if f._connection is not None else -1,
-              f._req_id if f._req_id is not None else -1,
+              self.own_request_index(),
               int(bool(f._paging_state)), len(self.pairs)]
         for p in self.pairs:
             o += [len(p['cb']), len(p['eb']), p['cb'][-1] if p['cb'] else 0, p['eb'][-1] if p['eb'] else 0]
